@@ -440,7 +440,6 @@ func runPureE(c Case) PureE {
 		} else {
 			e.Prefix = ev.Ints(all)
 		}
-		e.After = rm.Project(m)
 		// a second encoding into a buffer that was used before (Reset) and has spare capacity, behind the same prefix: what
 		// encoding appends does not depend on the buffer's history or capacity, and the prefix survives there as well
 		buf2 := new(bytes.Buffer)
@@ -468,6 +467,7 @@ func runPureE(c Case) PureE {
 			interleave()
 			e.Held = ev.Ints(out2)
 		}
+		e.After = rm.Project(m) // after ALL encodings (family entry, reused buffer, PlainNasEncode): none of them writes into the message
 	})
 	if pi != nil {
 		e.Panic, e.Pfn = true, pi.Fn+": "+pi.Kind
